@@ -50,11 +50,13 @@ public:
    Tokenizer( const std::string& s, char separator, bool keepEmpty);
 
 private:
-   /// Helper function used to turn the single character into a string.
+   /// Helper function used to turn the single character into a string.<br>
+   /// Returns a new string object with each call: No shared (static) buffer,
+   /// so tokenizers can be created concurrently in multiple threads.
    /// @param[in]  c  The character.
-   /// @return  Pointer to the string that contains the character.
+   /// @return  The string that contains the character.
    /// @since  0.2, 04.04.2016
-   const char* convChar2String( char c);
+   static std::string convChar2String( char c);
 
 }; // Tokenizer
 
@@ -63,23 +65,21 @@ private:
 // ===============
 
 
-inline const char* Tokenizer::convChar2String( char c)
+inline std::string Tokenizer::convChar2String( char c)
 {
-   static char  s[ 2] = { 0, 0 };
-   s[ 0] = c;
-   return s;
+   return std::string( 1, c);
 } // Tokenizer::convChar2String
 
 
 inline Tokenizer::Tokenizer( const std::string& s, char separator):
-   TokenizerBase< boost::char_separator< char>>( s, boost::char_separator< char>( convChar2String( separator)))
+   TokenizerBase< boost::char_separator< char>>( s, boost::char_separator< char>( convChar2String( separator).c_str()))
 {
 } // Tokenizer::Tokenizer
 
 
 inline Tokenizer::Tokenizer( const std::string& s, char separator,
                              bool /* keepEmpty */):
-   TokenizerBase< boost::char_separator< char>>( s, boost::char_separator< char>( convChar2String( separator), "", boost::keep_empty_tokens))
+   TokenizerBase< boost::char_separator< char>>( s, boost::char_separator< char>( convChar2String( separator).c_str(), "", boost::keep_empty_tokens))
 {
 } // Tokenizer::Tokenizer
 
